@@ -11,11 +11,25 @@ def _prod(s):
     return p
 
 
+EPS = 1e-16
+
+
+def _n(a):
+    return float(np.linalg.norm(np.asarray(a).ravel()))
+
+
 class Spec:
+    """apply()/adjoint() evaluate the description; noise()/noise_adjoint() run a first-order
+    model of how float64 rounding noise propagates through it (each leaf amplifies incoming
+    noise by its gain on a random probe - the RMS gain, x3 - and adds EPS*||output||).  The
+    model gives the absolute round-off level of the tree's output, which is what a relative
+    tolerance must not fall below when parts cancel or a late stage has a large gain."""
+
     def __init__(self, build_leaf, scalar_value):
         self.build_leaf = build_leaf
         self.scalar_value = scalar_value
         self.cache = {}
+        self.gains = {}
 
     def leaf(self, d):
         k = id(d)
@@ -101,3 +115,79 @@ class Spec:
         if axis is None:
             return np.concatenate([np.asarray(y).ravel() for y in ys])
         return np.concatenate(ys, axis=axis)
+
+
+    # ---- rounding-noise model ------------------------------------------------
+    def _gain(self, d, adjoint):
+        k = (id(d), adjoint)
+        if k not in self.gains:
+            L = self.leaf(d)
+            op = L.H if adjoint else L
+            rng = np.random.default_rng(24680)
+            shp = tuple(op.ishape)
+            p = rng.standard_normal(shp) + 1j * rng.standard_normal(shp)
+            npn = _n(p)
+            try:
+                g = 3.0 * _n(op(p)) / npn if npn > 0 else 1.0
+            except Exception:
+                g = 1.0
+            self.gains[k] = max(g, 0.0)
+        return self.gains[k]
+
+    def noise(self, d, x, nx=0.0, adjoint=False):
+        """Returns (value, absolute noise level) of d (or its adjoint) applied to x."""
+        op = d["op"]
+        fwd = not adjoint
+        if op == "Compose":
+            parts = d["parts"][::-1] if fwd else d["parts"]
+            for p in parts:
+                x, nx = self.noise(p, x, nx, adjoint)
+            return x, nx
+        if op in ("Add", "Sub"):
+            tot, nt = 0, 0.0
+            for i, p in enumerate(d["parts"]):
+                y, ny = self.noise(p, x, nx, adjoint)
+                tot = tot + (-y if (op == "Sub" and i == 1) else y)
+                nt += ny + EPS * _n(y)
+            return tot, nt
+        if op == "Neg":
+            y, ny = self.noise(d["A"], x, nx, adjoint)
+            return -y, ny
+        if op in ("ScaleL", "ScaleR"):
+            a = self.scalar_value(d["a"])
+            a = np.conj(a) if adjoint else a
+            y, ny = self.noise(d["A"], x, nx, adjoint)
+            return a * y, abs(a) * ny + EPS * abs(a) * _n(y)
+        if op == "Conj":
+            y, ny = self.noise(d["A"], np.conj(x), nx, adjoint)
+            return np.conj(y), ny
+        if op == "H":
+            return self.noise(d["A"], x, nx, not adjoint)
+        if op == "N":
+            y, ny = self.noise(d["A"], x, nx, False)
+            return self.noise(d["A"], y, ny, True)
+        if op in ("Hstack", "Vstack", "Diag"):
+            split_in = (op == "Hstack" and fwd) or (op == "Vstack" and adjoint) or op == "Diag"
+            cat_out = (op == "Vstack" and fwd) or (op == "Hstack" and adjoint) or op == "Diag"
+            if op == "Diag":
+                ain, aout = (d["iaxis"], d["oaxis"]) if fwd else (d["oaxis"], d["iaxis"])
+            else:
+                ain = aout = d["axis"]
+            key_in = "ishape" if fwd else "oshape"
+            if split_in:
+                xs = self._split(x, [p[key_in] for p in d["parts"]], ain)
+            else:
+                xs = [x] * len(d["parts"])
+            ys, nt = [], 0.0
+            for p, xi in zip(d["parts"], xs):
+                y, ny = self.noise(p, xi, nx, adjoint)
+                ys.append(y)
+                nt += ny
+            if cat_out:
+                return self._cat(ys, aout), nt
+            tot = sum(ys)
+            return tot, nt + EPS * sum(_n(y) for y in ys)
+        L = self.leaf(d)
+        y = (L.H if adjoint else L)(x)
+        return y, self._gain(d, adjoint) * nx + 4 * EPS * (_n(y) + _n(x) * self._gain(
+            d, adjoint) / 3.0)
